@@ -552,3 +552,30 @@ def origin_guard(v, r):
     if op in ("!=", ">"):
         return a.args[1], a.args[2]
     return v, None
+
+
+NARROW = ("float32", "float16", "single", "half", "complex64", "csingle")
+
+
+def narrowing_casts(f, names=None):
+    """[(node, text)]: a value is cast to a precision below double inside f - numpy.float32(x), x.astype('float32' /
+    numpy.float32), asarray(x, dtype=float32), dtype='f4'.  `names`: restrict to casts whose operand mentions one of them."""
+    out = []
+    for n in ast.walk(f.node):
+        if not isinstance(n, ast.Call):
+            continue
+        fn = norm_text(n.func)
+        last = fn.split(".")[-1]
+        operand = None
+        hit = False
+        if last in NARROW and n.args:
+            hit, operand = True, n.args[0]
+        elif last == "astype" and n.args and any(t in norm_text(n.args[0]) for t in NARROW + ("f4", "f2")):
+            hit, operand = True, n.func.value if isinstance(n.func, ast.Attribute) else None
+        else:
+            for k in n.keywords:
+                if k.arg == "dtype" and any(t in norm_text(k.value) for t in NARROW + ("'f4'", "'f2'")):
+                    hit, operand = True, (n.args[0] if n.args else None)
+        if hit and (names is None or (operand is not None and any(isinstance(x, ast.Name) and x.id in names for x in ast.walk(operand)))):
+            out.append((n, norm_text(n)[:70]))
+    return out
